@@ -10,9 +10,10 @@ def run(ctx):
     nx = {"quick": 3000, "thorough": 10 ** 9}[ctx.tier]   # thorough: the whole enumeration (~132 000 layouts)
 
     # VERIF_C05_FIXED=1: judge against the model of the repaired algorithm (model/C05_fixed.v), no known bits
-    fixed = os.environ.get("VERIF_C05_FIXED") == "1"
-    footer = ("Definition R := Eval vm_compute in failing_fixed cases.\nPrint R.\n"
-              "Definition NC := Eval vm_compute in List.length cases.\nPrint NC.\n") if fixed else None
+    fixed = os.environ.get("VERIF_C05_FIXED") in ("1", "2")   # 1: model/C05_fixed.v (protection pass), 2: model/C05_fixed2.v (recommended)
+    fn = "failing_fixed2" if os.environ.get("VERIF_C05_FIXED") == "2" else "failing_fixed"
+    footer = ("Definition R := Eval vm_compute in %s cases.\nPrint R.\n"
+              "Definition NC := Eval vm_compute in List.length cases.\nPrint NC.\n" % fn) if fixed else None
     rep = os.environ.get("VERIF_C05_BALANCE_GO")
     replace = {"services/keep-balance/balance.go": rep} if rep else None
 
